@@ -14,6 +14,8 @@ harness substitutes an exact, hemisphere-asymmetric table function for gis_utils
 (the kernel still decides at which latitudes it evaluates them and how it combines the results),
 records the latitudes the implementation asked for and passes latitude -> value to the model.
 """
+import heapq
+import math
 from fractions import Fraction
 
 import numpy as np
@@ -30,7 +32,14 @@ RULE = ("rasters <= 56 cells (quick) / <= 225 (thorough); observations: 0..6 sou
         "degree_metres_x/y; scale families: in ~45 % of the cases the cell sizes (projected: transform, geographic: the "
         "metres-per-degree table) and/or the whole friction field are multiplied by one power of two 2**-24..2**20 (every float "
         "operation stays exact), spread2d is run on the unscaled twin too: dst must scale exactly; dissolve: Voronoi label rasters with background, 1..K-1 labels dissolved by label or by location. "
-        "non-trivial = >= 2 sources or >= 1 obstacle (spread), >= 2 surviving regions (dissolve); distinct = SHA-1 of all inputs")
+        "non-trivial = >= 2 sources or >= 1 obstacle (spread), >= 2 surviving regions (dissolve); distinct = SHA-1 of all inputs. "
+        "geographic grids with the library's REAL metres-per-degree functions (nothing substituted; spread2d, <= 56 cells, "
+        "cells 1/8 .. 5 degrees, north-up and south-up, either sign of xres, both hemispheres): polar caps whose outer row "
+        "touches +-90, caps ending 1/2 .. 3 cells before the pole, rows at 60..90, anywhere, across the equator; sources "
+        "on the most polar row in half of the cases; the step lengths handed to the Lean least-walk-cost specification "
+        "come from the harness' own evaluation (math module) of the documented WGS84 series at north + (r+1/2)*transform[4]; "
+        "dst is compared within 2e-5 relative (float32 accumulation), src must be an allowed observation attaining the "
+        "least cost within that tolerance")
 
 PYTH = [(3, 4), (4, 3), (0.75, 1), (1.5, 2), (6, 8), (5, 12), (8, 15), (2, 1.5), (12, 5), (1, 0.75)]
 TRIPLES = [(3, 4), (4, 3), (5, 12), (12, 5), (8, 15), (15, 8), (6, 8), (20, 21)]
@@ -676,6 +685,229 @@ def case_dissolve_errors(ctx):
                  f"invalid arguments ({bad}) must raise ValueError, got {got}")
 
 
+# ------------------------------------------------------------------------------------------
+# geographic grids with the real metres-per-degree functions: mid latitudes to pole-touching rows
+# ------------------------------------------------------------------------------------------
+REAL_TOL = Fraction(2, 10 ** 5)   # float32 storage of dst / of the heap key: <= 2**-24 relative per step, <= ~60 steps
+
+
+def ref_degree_metres(lat):
+    """(east-west, north-south) length in metres of one degree at latitude `lat`: the documented WGS84 series, typed in
+    here and evaluated with the math module (independent of the source tree)"""
+    r = math.radians(lat)
+    x = 111412.84 * math.cos(r) - 93.5 * math.cos(3 * r) + 0.118 * math.cos(5 * r)
+    y = 111132.92 - 559.82 * math.cos(2 * r) + 1.175 * math.cos(4 * r) - 0.0023 * math.cos(6 * r)
+    return x, y
+
+
+class RealGeo:
+    """geographic transform (dyadic degrees: the row latitudes are exact); nothing of the library is substituted"""
+    kind, latlon = "latlon", True
+
+    def __init__(self, rng, shape):
+        nrow, ncol = shape
+        yres = rng.choice([0.125, 0.25, 0.5, 1.0, 2.0, 5.0])
+        while yres * nrow > 90:
+            yres /= 2
+        self.xres = rng.choice([0.125, 0.25, 0.5, 1.0, 2.0, 5.0]) * rng.choice([1, 1, 1, -1])
+        span = yres * nrow
+        where = rng.choice(["pole", "pole", "pole", "near-pole", "near-pole", "high", "any", "equator"])
+        if where == "pole":            # the outer edge of the outer row is the pole
+            lo = 90 - span
+        elif where == "near-pole":     # the cap ends half a cell .. three cells before the pole
+            lo = max(0.0, 90 - span - yres * rng.choice([0.5, 1, 1, 2, 3]))
+        elif where == "high":
+            lo = min(90 - span, 60 + rng.randint(0, 240) / 8)
+        elif where == "any":
+            lo = rng.randint(0, int((90 - span) * 8)) / 8
+        else:                          # across the equator
+            lo = -yres * rng.randint(0, nrow)
+        if rng.random() < 0.5 and where != "equator":
+            lo = -(lo + span)          # the same rows on the southern hemisphere
+        self.where = where
+        if rng.random() < 0.7:
+            self.t4, self.north = -yres, float(lo + span)    # north-up
+        else:
+            self.t4, self.north = yres, float(lo)            # south-up
+        self.west = float(rng.randint(-180, 170))
+        self.transform = Affine(self.xres, 0.0, self.west, 0.0, self.t4, self.north)
+        self.lats = [float(frac(self.north) + Fraction(2 * r + 1, 2) * frac(self.t4)) for r in range(nrow)]
+        assert all(-90 < v < 90 for v in self.lats) and min(self.lats) - yres / 2 >= -90 and max(self.lats) + yres / 2 <= 90
+        ref = [ref_degree_metres(v) for v in self.lats]
+        self.dx = [frac(x) * frac(abs(self.xres)) for x, _ in ref]      # exact products, as in the Lean specification
+        self.dy = [frac(y) * frac(abs(self.t4)) for _, y in ref]
+        self.dg = [frac(math.hypot(y * abs(self.t4), x * self.xres)) for x, y in ref]
+        self.ref = ref
+
+    def driver_args(self, shape):
+        a = {"nrow": shape[0], "ncol": shape[1], "latlon": 1}
+        a.update(rat_args("xres", [self.xres]))
+        a.update(rat_args("t4", [self.t4]))
+        a.update(rat_args("north", [self.north]))
+        order = sorted(range(len(self.lats)), key=lambda r: self.lats[r])
+        a.update(rat_args("tab.lat", [self.lats[r] for r in order]))
+        a.update(rat_args("tab.mx", [self.ref[r][0] for r in order]))
+        a.update(rat_args("tab.my", [self.ref[r][1] for r in order]))
+        a.update(rat_args("tab.dg", [float(self.dg[r]) for r in order]))
+        return a
+
+    def desc(self):
+        return {"geo": "latlon(real degree_metres_x/y)", "xres": self.xres, "transform[4]": self.t4, "north": self.north,
+                "west": self.west, "row_latitudes": self.lats,
+                "reference_degree_metres(lat:[x,y])": {str(v): list(xy) for v, xy in zip(self.lats, self.ref)}}
+
+    def step(self, r, dr, dc):
+        return self.dx[r] if dr == 0 else self.dy[r] if dc == 0 else self.dg[r]
+
+
+def least_costs(geo, shape, allowed, frc, sources):
+    """least walk cost (exact rationals; step length at the row of the cell stepped from, times its friction) from the
+    cells `sources` to every cell through allowed cells; None = no walk"""
+    nrow, ncol = shape
+    D = [None] * (nrow * ncol)
+    heap = []
+    for s in sources:
+        D[s] = Fraction(0)
+        heapq.heappush(heap, (Fraction(0), s))
+    while heap:
+        d0, a = heapq.heappop(heap)
+        if D[a] < d0:
+            continue
+        r, c = divmod(a, ncol)
+        f = Fraction(1) if frc is None else frc[a]
+        for dr in (-1, 0, 1):
+            for dc in (-1, 0, 1):
+                r1, c1 = r + dr, c + dc
+                if (dr == 0 and dc == 0) or not (0 <= r1 < nrow and 0 <= c1 < ncol) or not allowed[r1 * ncol + c1]:
+                    continue
+                d = d0 + geo.step(r, dr, dc) * f
+                b = r1 * ncol + c1
+                if D[b] is None or d < D[b]:
+                    D[b] = d
+                    heapq.heappush(heap, (d, b))
+    return D
+
+
+def case_spread_real(ctx, max_cells):
+    rng = ctx.rng
+    from pyflwdir import gis_utils
+    while True:
+        shape = (rng.randint(2, 9), rng.randint(1, 9))
+        if 2 <= shape[0] * shape[1] <= max_cells:
+            break
+    nrow, ncol = shape
+    n = nrow * ncol
+    geo = RealGeo(rng, shape)
+    msk, mk = gen_mask(rng, shape)
+    frc, fk = gen_frc(rng, shape)
+    dt = rng.choice(OBS_DT)
+    nodata = rng.choice([0, 0, 0, -9999, 255, 7])
+    if dt == np.uint8 and nodata < 0:
+        nodata = 255
+    nsrc = rng.randint(1, min(4, n))
+    cells = rng.sample(range(n), nsrc)
+    polar_row = max(range(nrow), key=lambda r: abs(geo.lats[r]))
+    if rng.random() < 0.5:             # an observation on the most polar row
+        cells[0] = polar_row * ncol + rng.randrange(ncol)
+        cells = sorted(set(cells))
+    obs = np.full(n, nodata, dtype=dt)
+    vals = [v for v in range(1, 40) if v != nodata]
+    for i in cells:
+        obs[i] = rng.choice(vals)
+    obs = obs.reshape(shape)
+    if msk is not None:
+        msk[np.unravel_index(cells[0], shape)] = True
+    kw = {"transform": geo.transform, "latlon": True}
+    if msk is not None:
+        kw["msk"] = msk
+    if frc is not None:
+        kw["frc"] = frc
+    if nodata != 0 or rng.random() < 0.5:
+        kw["nodata"] = nodata
+    obs_in = obs.copy()
+    i_obs = ints(obs_in)
+    desc = {"op": "spread2d", "shape": list(shape), "obs": i_obs, "obs_dtype": np.dtype(dt).name, "nodata": int(nodata),
+            "msk": None if msk is None else ints(msk), "frc": None if frc is None else [float(x) for x in frc.ravel()],
+            "frc_dtype": None if frc is None else frc.dtype.name, **geo.desc()}
+    try:
+        out, src, dst = gis_utils.spread2d(obs, **kw)
+    except Exception as e:  # valid input: any exception is a failure of the property at this input
+        ctx.evaluations += 1
+        ctx.fail(desc, "spec", f"spread2d raised {exc_class(e)}: {e} on a valid input")
+        return
+    pure = np.array_equal(obs, obs_in)
+    allowed = [True] * n if msk is None else [bool(x) for x in msk.ravel()]
+    srcs = [i for i in cells if allowed[i]]
+    obstacles = n - sum(allowed)
+    amax = max(abs(v) for v in geo.lats)
+    ctx.count("spread:geo:latlon(real degree lengths)")
+    ctx.count("feature:real-degree-lengths:" + geo.where)
+    ctx.count("feature:real-degree-lengths:hemisphere:" + ("both" if min(geo.lats) < 0 < max(geo.lats) else
+                                                            "north" if geo.lats[0] > 0 else "south"))
+    for lim in (60, 80, 85, 88, 89.5):
+        if amax > lim:
+            ctx.count("feature:real-degree-lengths:row centre beyond %s deg" % lim)
+    if amax + abs(geo.t4) / 2 == 90:
+        ctx.count("feature:real-degree-lengths:outer row touches the pole")
+    if amax > 85 and any(i // ncol == polar_row for i in srcs):
+        ctx.count("feature:real-degree-lengths:observation on a row beyond 85 deg")
+    if geo.t4 > 0:
+        ctx.count("feature:real-degree-lengths:south-up")
+    i_src, i_out = ints(src), ints(out)
+    i_dst = [frac(x) for x in dst.ravel().tolist()]
+    frc_q = None if frc is None else [frac(x) for x in frc.ravel().tolist()]
+    D = least_costs(geo, shape, allowed, frc_q, srcs)
+    Ds = {s: least_costs(geo, shape, allowed, frc_q, [s]) for s in set(i_src) if 0 <= s < n and s in srcs}
+    args = common_args(geo, shape, msk, frc)
+    args.update({"obs": i_obs, "nodata": int(nodata)})
+
+    def judge(ans):
+        a = ans[0]
+        if "__err__" in a:
+            return [{"kind": "model", "what": "driver error " + a["__err__"]}]
+        if a["positive"] != [1]:
+            raise RuntimeError("harness generated a non-positive step cost: " + repr(desc))
+        fs = []
+        s_dst, reach = rats_out(a, "spec.dst"), a["spec.reach"]
+        if rats_out(a, "model.lats") != [frac(v) for v in geo.lats]:
+            fs.append({"kind": "model", "what": "model row latitudes differ from the harness' own"})
+        # the harness' own least costs and the Lean specification agree exactly (same exact step lengths)
+        if [int(x is not None) for x in D] != reach or any(D[i] != s_dst[i] for i in range(n) if reach[i]):
+            fs.append({"kind": "model", "what": "least walk cost: python oracle != Lean specification (real degree lengths)"})
+            return fs
+        bad = [i for i in range(n) if reach[i] and (i_src[i] < 0 or abs(i_dst[i] - s_dst[i]) > REAL_TOL * s_dst[i])]
+        if bad:
+            i = bad[0]
+            fs.append({"kind": "spec", "what": f"geographic grid, row latitudes {geo.lats}: distance is not the least walk cost "
+                       f"(step lengths from the reference series for the length of a degree) at cells {bad[:5]}: cell {i} got "
+                       f"{float(i_dst[i])} (src {i_src[i]}), least cost {float(s_dst[i])}",
+                       "impl.dst": [float(x) for x in i_dst], "spec.dst": [float(x) for x in s_dst]})
+        for i in range(n):
+            if reach[i]:
+                s = i_src[i]
+                if s not in Ds or i_out[i] != i_obs[s]:
+                    fs.append({"kind": "spec", "what": f"cell {i}: src {s} is not an allowed observation cell or out {i_out[i]} is not its value"})
+                    break
+                if Ds[s][i] is None or Ds[s][i] - s_dst[i] > REAL_TOL * s_dst[i]:
+                    fs.append({"kind": "spec", "what": f"geographic grid, row latitudes {geo.lats}: cell {i}: observation {s} is not a "
+                               f"nearest one: its least cost is {None if Ds[s][i] is None else float(Ds[s][i])}, the least cost over all "
+                               f"observations {float(s_dst[i])}", "impl.src": i_src})
+                    break
+            else:
+                exp_src = i if (i_obs[i] != nodata) else -1
+                if i_src[i] != exp_src or i_dst[i] != 0 or i_out[i] != i_obs[i]:
+                    fs.append({"kind": "spec", "what": f"unreachable/disallowed cell {i} was changed: src {i_src[i]} dst {float(i_dst[i])} "
+                               f"out {i_out[i]} (obs {i_obs[i]})"})
+                    break
+        if not pure:
+            fs.append({"kind": "spec", "what": "input observation raster was modified"})
+        if not (out.dtype == obs.dtype and src.dtype == np.int32 and dst.dtype == np.float32):
+            fs.append({"kind": "spec", "what": f"dtypes out/src/dst = {out.dtype}/{src.dtype}/{dst.dtype}"})
+        return fs
+
+    ctx.add(desc, [("spread2d", args)], judge, nontrivial=len(srcs) >= 2 or (obstacles >= 1 and len(srcs) >= 1))
+
+
 def run(ctx):
     quick = ctx.tier == "quick"
     ncase = (700 if quick else 4000) * ctx.escalate
@@ -688,5 +920,10 @@ def run(ctx):
             case_dissolve(ctx, min(max_cells, 120))
         else:
             case_dissolve_errors(ctx)
+        if len(ctx.cases) >= 200:
+            ctx.flush()
+    # geographic grids with the real metres-per-degree functions, mid latitudes to pole-touching rows
+    for k in range((80 if quick else 600) * ctx.escalate):
+        case_spread_real(ctx, max_cells if quick else 100)
         if len(ctx.cases) >= 200:
             ctx.flush()
